@@ -114,8 +114,7 @@ theorem candidateKey_sep {k : Bytes} (hk : hasPrefix netmap_candidatePrefix k = 
     simp [snapshotKey, netmap_snapshotKeyPrefix_bytes] at hh
 
 /-- **node lists before 0.16**: every snapshot slot `i < count` holds the converted list after the upgrade
-(`{BLOB}` ↦ `{BLOB, Online}` node for node; an EMPTY list becomes the serialized Null - see
-`Props/C16.lean`, finding F17); an absent slot stays absent -/
+(`{BLOB}` ↦ `{BLOB, Online}` node for node; an empty list stays an empty list); an absent slot stays absent -/
 theorem netmap_snapshot_migrated {v h : Int} {s s' : Store} (hv : v < 16000)
     (hm : netmapMigrate v h s = some s') (c : Nat) (hc : snapshotCount s = some c) (i : Nat) (hi : i < c) :
     match get s (snapshotKey i) with
